@@ -160,6 +160,19 @@ func CheckC11(c *Ctx) {
 	for _, k := range []string{"Int", "Uint", "Float64"} {
 		if cc, ok := sk[k]; ok {
 			good := usesBitsTable(cc)
+			if !good {
+				// the bit size handed on through a local
+				ast.Inspect(cc, func(n ast.Node) bool {
+					if call, ok := n.(*ast.CallExpr); ok {
+						for _, a := range call.Args {
+							if usesBitsTable(resolveLocals(info, set.Decl.Body, a)) {
+								good = true
+							}
+						}
+					}
+					return !good
+				})
+			}
 			run.Oblige(good)
 			if !good {
 				c.violate("codec-agreement/bits", "helper.setReflectValue", "case "+k, cc.Pos(), "the parser for reflect."+k+" does not take its bit size from kindToBits[kind]")
@@ -175,7 +188,7 @@ func CheckC11(c *Ctx) {
 				return true
 			}
 			prec, okp := constInt(info, call.Args[2])
-			good = okp && prec == -1 && usesBitsTable(call.Args[3])
+			good = okp && prec == -1 && usesBitsTable(resolveLocals(info, get.Decl.Body, call.Args[3]))
 			return false
 		})
 		run.Oblige(good)
@@ -225,40 +238,44 @@ func CheckC11(c *Ctx) {
 	rd := c.fn("helper", "Csv", "ReadFromReader")
 	wr := c.csvRowWriter()
 	if rd != nil && wr != nil {
-		passesColumnFormat := func(fd *ast.FuncDecl, fn string, idx int) bool {
+		passesColumnFormat := func(fi *load.FuncInfo, fn string, idx int) bool {
 			good := false
-			ast.Inspect(fd.Body, func(n ast.Node) bool {
-				call, ok := n.(*ast.CallExpr)
-				if !ok || !strings.HasSuffix(calleeName(info, call), "helper."+fn) || len(call.Args) <= idx {
+			for _, body := range c.familyBodies(fi) {
+				ast.Inspect(body, func(n ast.Node) bool {
+					call, ok := n.(*ast.CallExpr)
+					if !ok || !strings.HasSuffix(calleeName(info, call), "helper."+fn) || len(call.Args) <= idx {
+						return true
+					}
+					if sel, ok := ast.Unparen(resolveLocals(info, body, call.Args[idx])).(*ast.SelectorExpr); ok && sel.Sel.Name == "Format" {
+						good = true
+					}
 					return true
-				}
-				if sel, ok := call.Args[idx].(*ast.SelectorExpr); ok && sel.Sel.Name == "Format" {
-					good = true
-				}
-				return true
-			})
+				})
+			}
 			return good
 		}
-		g := passesColumnFormat(rd.Decl, "setReflectValue", 2) && passesColumnFormat(wr.Decl, "getReflectValue", 1)
+		g := passesColumnFormat(rd, "setReflectValue", 2) && passesColumnFormat(wr, "getReflectValue", 1)
 		run.Oblige(g)
 		if !g {
 			c.violate("codec-agreement/time", "helper.(*Csv).ReadFromReader/writeToWriter", "column.Format", rd.Decl.Pos(), "reader and writer do not both use the column's Format tag")
 		}
 		// the reader indexes the record through the column index set from the header map
 		idxOK := false
-		ast.Inspect(rd.Decl.Body, func(n ast.Node) bool {
-			if ix, ok := n.(*ast.IndexExpr); ok {
-				// a []string (the decoded record, whatever it is called) indexed by a column's ColumnIndex
-				if t := info.TypeOf(ix.X); t != nil {
-					if sl, ok := t.Underlying().(*types.Slice); ok && types.Identical(sl.Elem(), types.Typ[types.String]) {
-						if sel, ok := ix.Index.(*ast.SelectorExpr); ok && sel.Sel.Name == "ColumnIndex" {
-							idxOK = true
+		for _, body := range c.familyBodies(rd) {
+			ast.Inspect(body, func(n ast.Node) bool {
+				if ix, ok := n.(*ast.IndexExpr); ok {
+					// a []string (the decoded record, whatever it is called) indexed by a column's ColumnIndex
+					if t := info.TypeOf(ix.X); t != nil {
+						if sl, ok := t.Underlying().(*types.Slice); ok && types.Identical(sl.Elem(), types.Typ[types.String]) {
+							if sel, ok := ast.Unparen(resolveLocals(info, body, ix.Index)).(*ast.SelectorExpr); ok && sel.Sel.Name == "ColumnIndex" {
+								idxOK = true
+							}
 						}
 					}
 				}
-			}
-			return true
-		})
+				return true
+			})
+		}
 		upd := c.anchorVia("helper", "Csv", "updateColumnIndexes", rd, func(fi *load.FuncInfo) bool {
 			// the method of the reader that assigns ColumnIndex
 			assigns := false
@@ -389,62 +406,116 @@ func (c *Ctx) columnOrder(info *types.Info) {
 		}
 		mname := fi.Fn.Name()
 		found, bad := 0, ""
-		ast.Inspect(fi.Decl.Body, func(n ast.Node) bool {
-			rs, ok := n.(*ast.RangeStmt)
-			if !ok {
-				return true
-			}
-			// the loop over the column descriptors (a slice of structs that carry a Header)
-			if !isColumnSlice(info.TypeOf(rs.X)) {
-				return true
-			}
-			var keyObj, valObj types.Object
-			if k, ok := rs.Key.(*ast.Ident); ok {
-				keyObj = info.Defs[k]
-			}
-			if v, ok := rs.Value.(*ast.Ident); ok {
-				valObj = info.Defs[v]
-			}
-			ast.Inspect(rs.Body, func(m ast.Node) bool {
-				as, ok := m.(*ast.AssignStmt)
-				if !ok || len(as.Lhs) != 1 {
-					return true
-				}
-				ix, ok := as.Lhs[0].(*ast.IndexExpr)
+		for _, body := range c.familyBodies(fi) {
+			ast.Inspect(body, func(n ast.Node) bool {
+				rs, ok := n.(*ast.RangeStmt)
 				if !ok {
 					return true
 				}
-				if t, ok := info.TypeOf(ix.X).Underlying().(*types.Slice); !ok || !types.Identical(t.Elem(), types.Typ[types.String]) {
+				// the loop over the column descriptors (a slice of structs that carry a Header)
+				if !isColumnSlice(info.TypeOf(rs.X)) {
 					return true
 				}
-				found++
-				id, isID := ix.Index.(*ast.Ident)
-				if !isID || keyObj == nil || info.Uses[id] != keyObj {
-					bad = fmt.Sprintf("%s[%s] is not indexed by the position of the column in the loop", types.ExprString(ix.X), types.ExprString(ix.Index))
+				var keyObj, valObj types.Object
+				if k, ok := rs.Key.(*ast.Ident); ok {
+					keyObj = info.Defs[k]
 				}
-				// the value must come from this loop's column
-				usesCol := false
-				ast.Inspect(as.Rhs[0], func(q ast.Node) bool {
-					if qi, ok := q.(*ast.Ident); ok && valObj != nil && info.Uses[qi] == valObj {
-						usesCol = true
-					}
-					return true
-				})
-				if !usesCol {
-					// a local computed from the column earlier in the body is accepted
-					if rid, ok := as.Rhs[0].(*ast.Ident); ok {
-						if ro := info.Uses[rid]; ro != nil && ro.Pos() > rs.Body.Pos() && ro.Pos() < as.Pos() {
-							usesCol = true
+				if v, ok := rs.Value.(*ast.Ident); ok {
+					valObj = info.Defs[v]
+				}
+				// the column of this iteration: the loop's value, or a local set from columns[key]
+				colObjs := map[types.Object]bool{}
+				if valObj != nil {
+					colObjs[valObj] = true
+				}
+				for _, st := range rs.Body.List {
+					if as, ok := st.(*ast.AssignStmt); ok && len(as.Lhs) == 1 && len(as.Rhs) == 1 {
+						rhs := ast.Unparen(as.Rhs[0])
+						if u, isU := rhs.(*ast.UnaryExpr); isU && u.Op == token.AND {
+							rhs = ast.Unparen(u.X)
+						}
+						if ix, isIx := rhs.(*ast.IndexExpr); isIx && types.ExprString(ix.X) == types.ExprString(rs.X) {
+							if kid, isID := ix.Index.(*ast.Ident); isID && keyObj != nil && info.Uses[kid] == keyObj {
+								if lid, isID := as.Lhs[0].(*ast.Ident); isID {
+									colObjs[info.ObjectOf(lid)] = true
+								}
+							}
 						}
 					}
 				}
-				if !usesCol && bad == "" {
-					bad = "the value written does not come from the loop's column"
+				usesColumn := func(e ast.Expr) bool {
+					uses := false
+					ast.Inspect(e, func(q ast.Node) bool {
+						if qi, ok := q.(*ast.Ident); ok && colObjs[info.Uses[qi]] {
+							uses = true
+						}
+						return true
+					})
+					return uses
 				}
+				// the append form: `xs = append(xs, <value of this column>)` as a statement of the loop body
+				// itself, in a body without continue/break, onto a slice that was created empty: element i
+				// is the value of column i
+				for _, st := range rs.Body.List {
+					as, ok := st.(*ast.AssignStmt)
+					if !ok || len(as.Lhs) != 1 || len(as.Rhs) != 1 {
+						continue
+					}
+					call, isCall := as.Rhs[0].(*ast.CallExpr)
+					lid, isID := as.Lhs[0].(*ast.Ident)
+					if !isCall || !isID || len(call.Args) != 2 {
+						continue
+					}
+					if fid, ok := call.Fun.(*ast.Ident); !ok || fid.Name != "append" || types.ExprString(call.Args[0]) != lid.Name {
+						continue
+					}
+					if t, ok := info.TypeOf(lid).Underlying().(*types.Slice); !ok || !types.Identical(t.Elem(), types.Typ[types.String]) {
+						continue
+					}
+					found++
+					if !startsEmpty(info, body, info.ObjectOf(lid), rs.Pos()) {
+						bad = lid.Name + " is appended to but was not created empty just before the loop"
+					} else if containsBranch(rs.Body) {
+						bad = "the loop that appends the columns can skip or stop: positions no longer correspond"
+					} else if !usesColumn(call.Args[1]) && bad == "" {
+						bad = "the value written does not come from the loop's column"
+					}
+				}
+				ast.Inspect(rs.Body, func(m ast.Node) bool {
+					as, ok := m.(*ast.AssignStmt)
+					if !ok || len(as.Lhs) != 1 {
+						return true
+					}
+					ix, ok := as.Lhs[0].(*ast.IndexExpr)
+					if !ok {
+						return true
+					}
+					if t, ok := info.TypeOf(ix.X).Underlying().(*types.Slice); !ok || !types.Identical(t.Elem(), types.Typ[types.String]) {
+						return true
+					}
+					found++
+					id, isID := ix.Index.(*ast.Ident)
+					if !isID || keyObj == nil || info.Uses[id] != keyObj {
+						bad = fmt.Sprintf("%s[%s] is not indexed by the position of the column in the loop", types.ExprString(ix.X), types.ExprString(ix.Index))
+					}
+					// the value must come from this loop's column
+					usesCol := usesColumn(as.Rhs[0])
+					if !usesCol {
+						// a local computed from the column earlier in the body is accepted
+						if rid, ok := as.Rhs[0].(*ast.Ident); ok {
+							if ro := info.Uses[rid]; ro != nil && ro.Pos() > rs.Body.Pos() && ro.Pos() < as.Pos() {
+								usesCol = true
+							}
+						}
+					}
+					if !usesCol && bad == "" {
+						bad = "the value written does not come from the loop's column"
+					}
+					return true
+				})
 				return true
 			})
-			return true
-		})
+		}
 		run.Count("csv_write_positions", found)
 		ok := found >= 1 && bad == ""
 		run.Oblige(ok)
@@ -841,4 +912,49 @@ func (c *Ctx) csvOptions() {
 		c.violate("codec-agreement/csv-options", "helper", "Comma", hp.Syntax[0].Pos(), "reader and writer use different separators ("+commaR+" / "+commaW+")")
 	}
 	run.Count("csv_option_assignments", n)
+}
+
+// startsEmpty: the only assignment to obj before pos in body creates an empty slice
+// (make(T, 0[, n]), nil, T{} or a bare var declaration).
+func startsEmpty(info *types.Info, body *ast.BlockStmt, obj types.Object, pos token.Pos) bool {
+	n, empty := 0, false
+	ast.Inspect(body, func(m ast.Node) bool {
+		if m == nil || m.Pos() >= pos {
+			return m == nil || m.Pos() < pos
+		}
+		switch x := m.(type) {
+		case *ast.ValueSpec:
+			for i, nm := range x.Names {
+				if info.ObjectOf(nm) != obj {
+					continue
+				}
+				n++
+				empty = len(x.Values) == 0 || emptySliceExpr(info, x.Values[i])
+			}
+		case *ast.AssignStmt:
+			for i, l := range x.Lhs {
+				if id, ok := l.(*ast.Ident); ok && info.ObjectOf(id) == obj {
+					n++
+					empty = len(x.Lhs) == len(x.Rhs) && emptySliceExpr(info, x.Rhs[i])
+				}
+			}
+		}
+		return true
+	})
+	return n == 1 && empty
+}
+
+// containsBranch: a continue, break or goto outside function literals.
+func containsBranch(n ast.Node) bool {
+	found := false
+	ast.Inspect(n, func(m ast.Node) bool {
+		switch m.(type) {
+		case *ast.FuncLit:
+			return false
+		case *ast.BranchStmt:
+			found = true
+		}
+		return !found
+	})
+	return found
 }
